@@ -205,6 +205,125 @@ def check_matrix(case, ctx):
         shutil.rmtree(tmp, ignore_errors=True)
 
 
+# ---------------------------------------------------------------------------------------------
+# files compressed by the codecs' own tools (other levels, streaming mode, checksums, several frames / members)
+
+
+def _zs_stream(plain, level, **kw):
+    import zstandard
+
+    params = zstandard.ZstdCompressionParameters.from_level(level, **kw)
+    c = zstandard.ZstdCompressor(compression_params=params).compressobj()
+    return c.compress(plain) + c.flush()
+
+
+def _split2(fn, plain):
+    h = len(plain) // 2
+    return fn(plain[:h]) + fn(plain[h:])
+
+
+def _gz_named(plain):
+    b = io.BytesIO()
+    g = gzip.GzipFile(filename="orig.records", fileobj=b, mode="wb", mtime=12345)
+    g.write(plain)
+    g.close()
+    return b.getvalue()
+
+
+def foreign_variants():
+    import lz4.frame
+    import zstandard
+
+    return {
+        "zst/level1": lambda p: zstandard.ZstdCompressor(level=1).compress(p),
+        "zst/level22": lambda p: zstandard.ZstdCompressor(level=22).compress(p),
+        "zst/level3-streaming": lambda p: _zs_stream(p, 3),
+        "zst/level19-streaming": lambda p: _zs_stream(p, 19),
+        "zst/level22-streaming": lambda p: _zs_stream(p, 22),
+        "zst/long-distance-window27": lambda p: _zs_stream(p, 3, enable_ldm=True, window_log=27),
+        "zst/checksum": lambda p: zstandard.ZstdCompressor(level=3, write_checksum=True).compress(p),
+        "zst/no-content-size": lambda p: zstandard.ZstdCompressor(level=3, write_content_size=False).compress(p),
+        "zst/two-frames": lambda p: _split2(zstandard.ZstdCompressor().compress, p),
+        "gz/level1": lambda p: gzip.compress(p, 1),
+        "gz/level9": lambda p: gzip.compress(p, 9),
+        "gz/with-filename": _gz_named,
+        "gz/two-members": lambda p: _split2(gzip.compress, p),
+        "bz2/level1": lambda p: bz2.compress(p, 1),
+        "bz2/two-streams": lambda p: _split2(bz2.compress, p),
+        "lz4/default": lambda p: lz4.frame.compress(p),
+        "lz4/checksums-4MB-unlinked": lambda p: lz4.frame.compress(p, content_checksum=True, block_checksum=True,
+                                                                     block_linked=False, store_size=True,
+                                                                     block_size=lz4.frame.BLOCKSIZE_MAX4MB),
+        "lz4/high-compression": lambda p: lz4.frame.compress(p, compression_level=12),
+        "lz4/two-frames": lambda p: _split2(lz4.frame.compress, p),
+    }
+
+
+def foreign_cases(tier):
+    return [{"variant": v, "container": c, "n": n} for v in foreign_variants() for c in ("stream", "avro") for n in (1, 40)]
+
+
+def check_foreign(case, ctx):
+    """The same valid compressed file must read the same through every way of naming it, whoever compressed it."""
+    from flow.record import RecordDescriptor, RecordReader, RecordWriter
+
+    variant, container = case["variant"], case["container"]
+    codec = variant.split("/")[0]
+    ext = CODECS[codec][0]
+    ctx.cls("foreign:" + variant, "container:" + container)
+    desc = RecordDescriptor("t/foreign", [("string", "s"), ("varint", "n"), ("bytes", "raw")])
+    g = gen_dt()
+    records = [desc("v%d" % i, i, bytes([i % 251]) * (i % 7), _generated=g) for i in range(case["n"])]
+    tmp = ctx.fresh_dir()
+    try:
+        plain_path = os.path.join(tmp, "plain.records" if container == "stream" else "plain.avro")
+        pre = "" if container == "stream" else "avro://"
+        w = RecordWriter(pre + plain_path)
+        for r in records:
+            w.write(r)
+        w.flush()
+        w.close()
+        plain = open(plain_path, "rb").read()
+        _, ref = read_all(lambda: RecordReader(pre + plain_path))
+        expected = [observe(r) for r in ref]
+        if len(ref) != len(records):
+            raise RuntimeError("harness: uncompressed reference reading gives %d of %d records" % (len(ref), len(records)))
+        data = foreign_variants()[variant](plain)
+        if decompress(codec, data) != plain if "two-" not in variant else False:
+            raise RuntimeError("harness: variant %s does not decompress to the input" % variant)
+        named = os.path.join(tmp, ("f.records" if container == "stream" else "f.avro") + ext)
+        hidden = os.path.join(tmp, "hidden.bin")
+        for p_ in (named, hidden):
+            with open(p_, "wb") as f:
+                f.write(data)
+        ways = [
+            ("path", lambda: RecordReader(pre + named)),
+            ("hidden-name", lambda: RecordReader(pre + hidden)),
+            ("bytesio", lambda: RecordReader(fileobj=io.BytesIO(data))),
+            ("buffered-file", lambda: RecordReader(fileobj=open(named, "rb"))),
+            ("raw-nopeek", lambda: RecordReader(fileobj=NoPeekRaw(data))),
+        ]
+        for wname, factory in ways:
+            res = impl(read_all, factory)
+            ctx.count(1)
+            ctx.nontriv((variant, container, wname, case["n"]))
+            if not res.ok:
+                raise Violation("foreign/%s/%s/%s/raised:%s" % (codec, container, wname, res.type),
+                                "%s: reading via %s raised %r" % (variant, wname, res), detail=variant.split("/")[1])
+            og = [observe(r) for r in res.value[1]]
+            if og != expected:
+                raise Violation("foreign/%s/%s/%s/records-differ" % (codec, container, wname),
+                                "%s via %s: %s" % (variant, wname, diff(tuple(expected), tuple(og))), detail=variant.split("/")[1])
+    finally:
+        shutil.rmtree(tmp, ignore_errors=True)
+
+
+def gen_dt():
+    import datetime as _d
+
+    return _d.datetime(2021, 3, 4, 5, 6, 7, tzinfo=_d.timezone.utc)
+
+
 def check_stdin(case, ctx):
     """Standard input of a real rdump subprocess (codec and container sniffed from the pipe)."""
     from flow.record import RecordReader, RecordWriter
@@ -416,6 +535,7 @@ def stdin_cells(tier):
 def parts(tier):
     return [
         Part("matrix", check_matrix, strategy=matrix_case(), examples=(40, 3000)),
+        Part("foreign-compressors", check_foreign, cases=foreign_cases, exhaustive=True),
         Part("stdin-cells", check_stdin, cases=stdin_cells, exhaustive=True),
         Part("stdin", check_stdin, strategy=matrix_case(), examples=(1, 25)),
         Part("interleaved", check_interleaved, strategy=interleave_case(), examples=(20, 1500)),
